@@ -25,7 +25,13 @@ for try in 1 2 3; do
   case "$res" in *" failed"*|*" error"*) sleep $((try * 7));; *) break;; esac
 done
 echo "$res" >> "$log"
-(cd /verif && VERIF_REPO="$wt" ./check "$id" --tier quick 2>&1 | grep "VIOLATION\|quick:" | cut -c1-160 | sort | uniq -c | head -8) >> "$log"
+# summary line, then the VIOLATION lines with a concrete replay first (at most 6) and those without (at most 3)
+(cd /verif && VERIF_REPO="$wt" ./check "$id" --tier quick > "$wt/_check.out" 2>&1
+ grep "quick:" "$wt/_check.out" | sed 's/^/      1 /'
+ grep "^VIOLATION" "$wt/_check.out" | grep -v "no-failing-input-found" | cut -c1-160 | head -6 | sed 's/^/      1 /'
+ grep "^VIOLATION" "$wt/_check.out" | grep "no-failing-input-found" | cut -c1-160 | head -3 | sed 's/^/      1 /'
+ echo "violation_lines_with_concrete_replay=$(grep "^VIOLATION" "$wt/_check.out" | grep -vc "no-failing-input-found")"
+ rm -f "$wt/_check.out") >> "$log"
 rm -f "$wt/_demo.py" "$wt/tests-pairing.json"
 git -C /repo worktree remove --force "$wt"
 cat "$log"
